@@ -113,7 +113,8 @@ def default_render(ns, na, ne, rng: random.Random | None = None, plain=False):
 def action_array(render, na):
     """The action space as the problem presents it: int32 rows, or float64 rows with fractional components
     (render["adiv"] > 1: every component divided by adiv - e.g. order quantities in half units)."""
-    a = np.array(render["avecs"], dtype=np.int32).reshape(na, -1) + np.int32(render.get("aoffset", 0))
+    a = np.array(render["avecs"], dtype=np.int32)
+    a = a.reshape(len(render["avecs"]), -1)[:na] + np.int32(render.get("aoffset", 0))
     adiv = int(render.get("adiv", 1))
     return a if adiv == 1 else a.astype(np.float64) / adiv
 
@@ -131,7 +132,11 @@ def make_problem(mdp: dict):
     strides = np.array(
         [int(np.prod(sdims[i + 1:])) for i in range(len(sdims))], dtype=np.int32
     )
-    avecs = action_array(r, na)
+    # "nax" > na: the transition function also understands nax - na action vectors that are NOT listed in the action
+    # space (e.g. an order quantity beyond the discretised lots); only a supplied initial policy can use them
+    nax = int(mdp.get("nax", na))
+    avecs_all = action_array(r, nax)
+    avecs = avecs_all[:na]
     afloat = avecs.dtype != np.int32
     evecs = np.array(r["evecs"], dtype=np.int32).reshape(ne, -1)
     # Row ns of every table is a GHOST row used for vectors outside the state space (only the all-zero
@@ -139,6 +144,7 @@ def make_problem(mdp: dict):
     # vector has dynamics of its own (reward 7, jumps to the last state) although the index function maps
     # it onto a listed state.  Nothing computed for it may ever reach a real state.
     ghost = bool(r.get("ghost", False))
+    listed_na, na = na, nax            # the tables cover listed and unlisted actions
     nxt_np = np.array(mdp["next"], dtype=np.int32).reshape(ns, na, ne)
     rew_np = np.array(mdp["rew"], dtype=np.float64).reshape(ns, na, ne) / float(2 ** mdp["rexp"])
     prob_np = np.array(mdp["pk"], dtype=np.float64).reshape(ns, na, ne) / float(mdp["PD"])
@@ -176,7 +182,7 @@ def make_problem(mdp: dict):
         v0 = jnp.array(v0_np.astype(np.float32))
     pol0 = None
     if r.get("has_init_policy"):
-        rows = avecs[np.array(mdp["pol0"], dtype=np.int32)]
+        rows = avecs_all[np.array(mdp["pol0"], dtype=np.int32)]
         if r.get("pol0_as_int") and afloat and np.all(rows == np.round(rows)):
             # a starting heuristic that returns whole-number actions as an integer array although the action space is
             # float-valued (e.g. "order nothing" = jnp.array([0]))
@@ -190,7 +196,8 @@ def make_problem(mdp: dict):
         if sdiv == 1:
             return jnp.asarray(state).astype(jnp.int32)
         return jnp.round(jnp.asarray(state) * sdiv).astype(jnp.int32)
-    j_avecs = jnp.array(avecs)
+    j_avecs = jnp.array(avecs_all)            # what the transition function understands
+    j_listed = jnp.array(avecs)              # what the action space lists
     j_evecs = jnp.array(evecs)
     j_strides = jnp.array(strides)
     j_lows = jnp.array(np.array(slows, dtype=np.int32))
@@ -209,7 +216,7 @@ def make_problem(mdp: dict):
             return j_states
 
         def _construct_action_space(self):
-            return j_avecs
+            return j_listed
 
         def _construct_random_event_space(self):
             return j_evecs
